@@ -9,6 +9,7 @@ import (
 	"os"
 	"path/filepath"
 	"sort"
+	"strconv"
 	"strings"
 	"sync"
 
@@ -148,13 +149,14 @@ func processDocLine(gl *GenLine, pool []Expr, rep *Report, fnd *Findings) {
 	docJSON, _ := json.Marshal(gl.Doc)
 	envJSON, _ := json.Marshal(env)
 	var cases, judgedN, skipped int
-	for ci, raw := range gl.Cases {
+	var cmu sync.Mutex // guards the three counters when the cases run concurrently
+	one := func(ci int, raw json.RawMessage) {
 		var gc GenCase
 		if len(raw) > 0 && raw[0] == '[' {
 			var arr []json.RawMessage
 			if err := json.Unmarshal(raw, &arr); err != nil || (len(arr) != 3 && len(arr) != 4) {
 				rep.infra("bad compact case")
-				continue
+				return
 			}
 			var ei int
 			json.Unmarshal(arr[0], &gc.Ctx)
@@ -166,14 +168,16 @@ func processDocLine(gl *GenLine, pool []Expr, rep *Report, fnd *Findings) {
 			}
 			if ei < 1 || ei > len(pool) {
 				rep.infra("pool index out of range")
-				continue
+				return
 			}
 			gc.E = &pool[ei-1]
 		} else if err := json.Unmarshal(raw, &gc); err != nil {
 			rep.infra("bad case: " + err.Error())
-			continue
+			return
 		}
+		cmu.Lock()
 		cases++
+		cmu.Unlock()
 		env := env
 		envJSON := envJSON
 		if gc.Env != nil {
@@ -198,11 +202,15 @@ func processDocLine(gl *GenLine, pool []Expr, rep *Report, fnd *Findings) {
 			}
 		}
 		if !judged && len(fails) == 0 {
+			cmu.Lock()
 			skipped++
-			continue
+			cmu.Unlock()
+			return
 		}
 		if judged {
+			cmu.Lock()
 			judgedN++
+			cmu.Unlock()
 		}
 		eJSON, _ := json.Marshal(gc.E)
 		h := hash64(docJSON, envJSON, []byte(fmt.Sprint(gc.Ctx)), eJSON)
@@ -239,12 +247,47 @@ func processDocLine(gl *GenLine, pool []Expr, rep *Report, fnd *Findings) {
 			rep.addFailure(f, rc)
 		}
 	}
+	if k := caseConc(); k > 1 {
+		// C14: the cases of this line are evaluated by k goroutines at once on the ONE tree built above, sharing
+		// the compiled expressions and the bindings; every result is still judged against the specification
+		type job struct {
+			ci  int
+			raw json.RawMessage
+		}
+		ch := make(chan job, 64)
+		var wg sync.WaitGroup
+		for i := 0; i < k; i++ {
+			wg.Add(1)
+			go func() {
+				defer wg.Done()
+				for j := range ch {
+					one(j.ci, j.raw)
+				}
+			}()
+		}
+		for ci, raw := range gl.Cases {
+			ch <- job{ci, raw}
+		}
+		close(ch)
+		wg.Wait()
+	} else {
+		for ci, raw := range gl.Cases {
+			one(ci, raw)
+		}
+	}
 	rep.mu.Lock()
 	rep.Docs++
 	rep.Cases += cases
 	rep.Judged += judgedN
 	rep.Skipped += skipped
 	rep.mu.Unlock()
+}
+
+func caseConc() int {
+	if v, err := strconv.Atoi(os.Getenv("VERIF_CASE_CONC")); err == nil && v > 1 {
+		return v
+	}
+	return 1
 }
 
 func (r *Report) infra(s string) {
